@@ -152,9 +152,17 @@ class Journal:
         self._previous_journal: Journal | None = None
         self._hooks: list[Callable[[JournalEntry], None]] = []
         self._original_methods: dict[str, Callable] = {}
+        self._active = False
 
     def __enter__(self) -> Self:
         global _current_journal
+        if self._active:
+            # Entering again would overwrite the saved methods with already-wrapped ones, so
+            # the IR classes could never be restored. A Journal is reusable but not reentrant.
+            raise RuntimeError(
+                "This Journal is already active. Create a new Journal for a nested block."
+            )
+        self._active = True
         self._previous_journal = _current_journal
         _current_journal = self
         self._original_methods = _wrappers.wrap_ir_classes(self)
@@ -164,6 +172,7 @@ class Journal:
         _wrappers.restore_ir_classes(self._original_methods)
         global _current_journal
         _current_journal = self._previous_journal
+        self._active = False
 
     @property
     def entries(self) -> Sequence[JournalEntry]:
